@@ -334,9 +334,15 @@ def run(chk):
                 return g is not None and (F.T(g["ret"]) or "").rstrip().endswith("&")
 
             def temp_args(n):
+                """Temporaries whose lifetime the returned reference may depend on: for a free function any reference
+                argument (std::min/max/clamp return one of them); for a non-static member function only the object
+                itself (members return *this or a part of it: `return *this = T(other);` is fine)."""
                 n = unwrap(n)
-                out = [a for a in n.get("a", []) if isinstance(a, dict) and a.get("mat") == "tmp"]
+                g = F.fns.get(n.get("f"))
                 o = n.get("obj")
+                if g is not None and g.get("kind") == "method" and not g.get("static") and isinstance(o, dict):
+                    return [o] if o.get("mat") == "tmp" else []
+                out = [a for a in n.get("a", []) if isinstance(a, dict) and a.get("mat") == "tmp"]
                 if isinstance(o, dict) and o.get("mat") == "tmp":
                     out.append(o)
                 return out
